@@ -101,6 +101,8 @@ def run(R: vlib.Run):
                   "hand model Model/Stream.v of cread/creadinto loops, tied by this correspondence run",
                   "refinement theorem is for byte-wide items (isz=1); 2/4-byte items are covered by correspondence + oracle only"]
     R.assume += ["np.fromfile/readinto on regular files read as many bytes as exist", "per-file data sections hold a whole number of items"]
+    if "VERIF_CASE_TIMEOUT" not in os.environ:
+        R.case_budget = 120.0 if R.tier == "quick" else 600.0   # every implementation call here is a tiny read, ticked individually
     R.prove("Props/C02.v")
     R.need(["Model/Stream.vo"])
     rng = R.rng
@@ -125,6 +127,7 @@ def run(R: vlib.Run):
                     ops = list(ops)
                     fr = open_reader(paths, hdrs, datas, 8)
                     fr.seek(0, 0) if tot > 0 else None
+                    R.tick({"files": [list(x) for x in datas], "isz": 1, "ops": ops})
                     res = impl_run(fr, ops); fr.close()
                     batches.append((hdrs, datas, 1, ops, res))
         # ---- random longer histories, widths 1/2/4 -------------------------------------------
@@ -139,6 +142,7 @@ def run(R: vlib.Run):
             ops = gen_ops(rng, tot, isz, rng.randrange(1, 60 if R.tier == "thorough" else 25), None)
             fr = open_reader(paths, hdrs, datas, nbits)
             fr.seek(0, 0)
+            R.tick({"files": [list(x) for x in datas], "isz": isz, "ops": ops})
             res = impl_run(fr, ops); fr.close()
             batches.append((hdrs, datas, isz, ops, res))
         # ---- oracle: bytes model --------------------------------------------------------------
